@@ -145,10 +145,15 @@ def compare_eval(ev1, ev2, symbols=None, rename=None):
     rename = rename or {}
     a1, o1, _ = ev1
     a2, o2, _ = ev2
+    def undefined(v):
+        return isinstance(v, sympy.Basic) and v.has(sympy.nan, sympy.zoo, sympy.oo, -sympy.oo)
+
     for nm in (symbols if symbols is not None else sorted(a1)):
         nm2 = rename.get(nm, nm)
         if nm not in a1:
             continue
+        if undefined(a1[nm]):
+            continue        # the original model is undefined at this point (0/0, log 0): nothing to preserve
         if nm2 not in a2:
             return f"{nm2} is no longer defined"
         if not same_value(a1[nm], a2[nm2]):
@@ -156,6 +161,8 @@ def compare_eval(ev1, ev2, symbols=None, rename=None):
     if sorted(o1) != sorted(o2):
         return f"ODE expressions differ in shape: {sorted(o1)} vs {sorted(o2)}"
     for key in sorted(o1):
+        if undefined(o1[key]):
+            continue
         if not same_value(o1[key], o2[key]):
             return f"ODE {key}: {sympy.N(o1[key], 12)} before, {sympy.N(o2[key], 12)} after"
     return None
